@@ -105,6 +105,12 @@ GFORMS = {
     "nestassoc": ("Option<<{P} as Tr>::Assoc>", S_ALL, False),
     "tup3": ("(u8, ({P},), i32)", S_ALL, False),
     "two": ("Result<{P}, {Q}>", S_ALL, False),
+    # a qualified path whose self type is concrete: the parameter occurs only in the trait's arguments
+    "qselfargs": ("<u8 as TrG<{P}>>::Out", S_ALL, False),
+    "qselfargs2": ("<Vec<u8> as TrG<Option<{P}>>>::Out", S_ALL, False),
+    "qselfboth": ("<{P} as TrG<{Q}>>::Out", S_ALL, False),
+    "pathargs": ("a::b::Wrap<u8, {P}>::Inner", S_ALL, False),
+    "dynassoc": ("&'a dyn TrG<u8, Out = {P}>", S_ALL, False),
 }
 L2_FORMS = [k for k, v in GFORMS.items() if v[2]]
 ALL_FORMS = list(GFORMS)
